@@ -179,6 +179,26 @@ def check_circuit(n, gates, acc):
                     }:
                         acc.violation(f'{site}/absent-vs-explicit-undefined-differ', case, f'{entry}')
         acc.outcome('defined', tuple(len(s) == 1 for s in poss.values()))
+    # one assignment dict reused by the caller: inputs defined one after another, then one flipped
+    for entry, fn in (('evaluate_circuit', c.evaluate_circuit), ('evaluate_circuit_outputs', c.evaluate_circuit_outputs)):
+        shared = {}
+        p = [2] * n
+        steps = [(i, 1) for i in range(n)] + ([(0, 0)] if n else [])
+        for i, v in steps:
+            shared[labs[i]] = bool(v)
+            p[i] = v
+            acc.transitions += 1
+            case = lambda: {**space.spec_json(n, gates), 'reused_dict_steps': steps, 'at': [i, v]}  # noqa: E731
+            ok, res = guarded(acc, entry, case, fn, shared)
+            if not ok:
+                break
+            fresh = results.get((entry, tuple(p)))
+            if fresh is not None and {k_: (x if _isb(x) else 'U') for k_, x in res.items()} != {k_: (x if _isb(x) else 'U') for k_, x in fresh.items()}:
+                acc.violation(f'{entry}/differs-when-the-assignment-dict-is-reused', case, f'got {res!r} fresh {fresh!r}')
+                break
+            if set(shared) - set(labs[:n]):
+                acc.violation(f'{entry}/modifies-its-argument', case, f'keys now {sorted(shared)}')
+                break
     # monotonicity along covering pairs
     for (entry, p), res in results.items():
         for pos in range(n):
